@@ -258,4 +258,205 @@ theorem unlockGp_holds (trk fuel MPre g V env inp ss wins) (hI : PI MPre g V env
     Holds trk (exec fuel stUnlockGp env inp) ss wins (SP MPre g V) :=
   ext_silent trk fuel MPre g V env inp ss wins _ _ (by intro ss r; simp [absExt, regLock]) hI
 
+theorem SP_sync {MPre g V} (ctl e s w) (hn : ctl ≠ .normal) (h : SP MPre g V ctl e s w) : SyncPost ctl e s w := by
+  cases ctl <;> simp_all [SP, SyncPost]
+  rename_i v; cases v <;> simp_all
+
+theorem tail_holds (trk fuel MPre q5) (hq5 : Quiet trk MPre q5 none) (g env inp ss wins)
+    (hI : PI MPre g (fun _ => True) env ss) :
+    Holds trk (exec fuel (block [(.assign "_goto_out" (.lit 0)), stUnlockReg, stUnlockGp, q5]) env inp) ss wins SyncPost := by
+  refine Holds.seq (Qa := SP MPre g (fun _ => True)) ?_ ?_ (fun ctl e s w hn h => SP_sync ctl e s w hn h)
+  · intro out ho; exec_simp_at ho []; subst ho
+    simp only [Ok_nil_iff, SP]; exact hI
+  intro e i s w hq
+  refine Holds.seq (unlockReg_holds trk fuel MPre g (fun _ => True) e i s w hq) ?_ (fun ctl e s w hn h => SP_sync ctl e s w hn h)
+  intro e i s w hq
+  refine Holds.seq (unlockGp_holds trk fuel MPre g (fun _ => True) e i s w hq) ?_ (fun ctl e s w hn h => SP_sync ctl e s w hn h)
+  intro e i s w hq
+  refine (hq5 fuel e i s w hq.1 hq.2.1).mono ?_
+  intro ctl e' s' w' h
+  cases ctl <;> simp_all [SyncPost]
+  obtain ⟨rfl, _⟩ := h; exact ⟨hq.1, hq.2.1⟩
+
+/-- `cds_list_empty(&registry)` under both locks: `uStartEmpty` (stay at `idle`) or `uStart` (to `mbar1`) -/
+def A9 (MPre : (Loc → Option Val) → Prop) (g : Bool) : Post := fun ctl env ss _ =>
+  match ctl with
+  | .normal => ∃ r, env.vars "_t2" = some r ∧ env.vars "_goto_out" = some (.int 0) ∧
+      (if r.truthy then PI MPre g (fun _ => True) env ss else GInv MPre .mbar1 g (fun _ => True) env.vars env ss)
+  | .blocked | .fuel => True
+  | _ => False
+
+theorem regEmpty_holds (trk fuel MPre g env inp ss wins)
+    (hI : PI MPre g (fun vars => vars "_goto_out" = some (.int 0)) env ss) :
+    Holds trk (exec fuel stRegEmpty env inp) ss wins (A9 MPre g) := by
+  intro out ho
+  obtain ⟨⟨u, gp, reg, inpl, snap, qs⟩, pend⟩ := ss
+  obtain ⟨h1, h2, h3, h4, h5, h6⟩ := hI
+  simp only at h1 h2 h3; subst h1; subst h2; subst h3
+  cases inp with
+  | nil => exec_simp_at ho [stRegEmpty]; subst ho; simp [Ok_nil_iff, A9]
+  | cons r rest =>
+    simp [stRegEmpty, exec, evalArgs, eval, execPrim, bind, Except.bind, setDst, Env.setVar] at ho; subst ho
+    by_cases hr : r.truthy = true
+    · by_cases hreg : reg = []
+      · subst hreg
+        simp [Ok_cons, absEv, absExt, registry, hr, lrun, lstep, Ok_nil_iff, A9, h6]
+        exact ⟨rfl, rfl, rfl, h4, h5, trivial⟩
+      · simp [Ok_cons, absEv, absExt, registry, hr, hreg]
+    · by_cases hreg : reg = []
+      · simp [Ok_cons, absEv, absExt, registry, hr, hreg]
+      · simp [Ok_cons, absEv, absExt, registry, hr, lrun, lstep, Ok_nil_iff, A9, h6, hreg]
+        exact ⟨rfl, rfl, rfl, rfl, h4, h5, trivial⟩
+
+theorem lockReg_holds (trk fuel MPre g V env inp ss wins) (hI : PI MPre g V env ss) :
+    Holds trk (exec fuel stLockReg env inp) ss wins (SP MPre g V) := by
+  intro out ho
+  obtain ⟨ls, pend⟩ := ss
+  obtain ⟨ls', hl1, hl2, hl3⟩ := lrun_env (wins.head?.getD []) ls
+  obtain ⟨h1, h2, h3, h4, h5, h6⟩ := hI
+  cases inp <;> exec_simp_at ho [stLockReg] <;> subst ho <;> abs_simp [SP, hl1, PI]
+  exact ⟨by rw [hl2]; exact h1, h2, by rw [hl3]; exact h3, h4, h5, h6⟩
+
+theorem eval_ne0 (env : Env) (v : Val) (h : env.vars "_t1" = some v) :
+    eval env (.bin .ne (.var "_t1") (.lit 0)) = .ok (boolV (v ≠ .int 0)) := by
+  cases v <;> simp [eval, h, bind, Except.bind, evalBin]
+
+theorem A9_sync {MPre g} (ctl e s w) (hn : ctl ≠ .normal) (h : A9 MPre g ctl e s w) : SyncPost ctl e s w := by
+  cases ctl <;> simp_all [A9, SyncPost]
+
+/-- after `if (cds_list_empty(&registry)) goto out;` … `out:` -/
+def A11 (MPre : (Loc → Option Val) → Prop) : Post := fun ctl env ss _ =>
+  match ctl with
+  | .normal => ∃ g', PI MPre g' (fun _ => True) env ss
+  | .blocked | .fuel => True
+  | _ => False
+
+theorem GInv_PI {MPre g vars env ss} (h : GInv MPre .idle g (fun _ => True) vars env ss) : PI MPre g (fun _ => True) env ss := by
+  obtain ⟨h1, h2, h3, h4, h5, h6, _⟩ := h; exact ⟨h2, h4, h3, h5, h6, trivial⟩
+
+set_option maxHeartbeats 800000 in
+theorem syncT_holds (trk fuel master wfr q1 q2 q3 q4 q5 MPre) (hM : MasterSpec trk master MPre)
+    (hW : WfrSpec trk wfr MPre) (hS : MStable MPre) (hq1 : Quiet trk MPre q1 (some "_t1"))
+    (hq2 : Quiet trk MPre q2 none) (hq3 : Quiet trk MPre q3 none) (hq4 : Quiet trk MPre q4 none)
+    (hq5 : Quiet trk MPre q5 none) (g : Bool) (env inp ss wins) (hI : PI MPre g (fun _ => True) env ss) :
+    Holds trk (exec fuel (syncT master wfr q1 q2 q3 q4 q5) env inp) ss wins SyncPost := by
+  let V1 : (String → Option Val) → Prop := fun vars => vars "_goto_out" = some (.int 0)
+  let V2 : (String → Option Val) → Prop := fun vars => vars "_goto_out" = some (.int 0) ∧ ∃ v, vars "_t1" = some v
+  have hnn : ∀ {g V} ctl e s w, ctl ≠ .normal → SP MPre g V ctl e s w → SyncPost ctl e s w :=
+    fun ctl e s w hn h => SP_sync ctl e s w hn h
+  have keep : ∀ vars vars' : String → Option Val, V1 vars → (∀ x, some x ≠ (none : Option String) → vars' x = vars x) →
+      (∀ x, (none : Option String) = some x → ∃ v, vars' x = some v) → V1 vars' := by
+    intro vars vars' h1 h2 _; show vars' "_goto_out" = _; rw [h2 _ (by simp)]; exact h1
+  -- _goto_out = 0
+  refine Holds.seq (Qa := SP MPre g V1) ?_ ?_ hnn
+  · intro out ho; exec_simp_at ho []; subst ho
+    obtain ⟨h1, h2, h3, h4, h5, _⟩ := hI
+    simp only [Ok_nil_iff, SP]; exact ⟨h1, h2, h3, h4, h5, by simp [V1]⟩
+  intro e i s w hq
+  -- wait.state = URCU_WAIT_WAITING
+  refine Holds.seq (Qa := SP MPre g V1) ?_ ?_ hnn
+  · intro out ho; exec_simp_at ho [stWaitInit]; subst ho
+    obtain ⟨h1, h2, h3, h4, h5, h6⟩ := hq
+    simp only [Ok_nil_iff, SP]
+    refine ⟨h1, h2, h3, ?_, hS _ _ _ (Or.inr (Or.inr rfl)) h5, h6⟩
+    simpa [gpCtr] using h4
+  intro e i s w hq
+  -- urcu_wait_add
+  refine Holds.seq (quiet_step trk MPre q1 _ hq1 g V1 V2 fuel e i s w ?_ hq) ?_ hnn
+  · intro vars vars' h1 h2 h3
+    exact ⟨by show vars' "_goto_out" = _; rw [h2 _ (by simp)]; exact h1, h3 _ rfl⟩
+  intro e i s w hq
+  -- not the leader: busy wait and return
+  refine Holds.seq (Qa := SP MPre g V1) ?_ ?_ hnn
+  · obtain ⟨v, hv⟩ := hq.2.2.2.2.2.2
+    rw [exec_ifte _ _ _ _ _ _ _ (eval_ne0 e v hv)]
+    by_cases hv0 : v = .int 0
+    · simp [boolV, hv0, Val.truthy]
+      intro out ho; simp only [exec, Except.ok.injEq] at ho; subst ho
+      obtain ⟨h1, h2, h3, h4, h5, h6, _⟩ := hq
+      simp only [Ok_nil_iff, SP]; exact ⟨h1, h2, h3, h4, h5, h6⟩
+    · simp [boolV, hv0, Val.truthy]
+      refine Holds.seq (quiet_step trk MPre q2 _ hq2 g V2 V1 fuel e i s w ?_ hq) ?_ (fun ctl e s w hn h => SP_nn ctl e s w hn h)
+      · intro vars vars' h1 h2 _; show vars' "_goto_out" = _; rw [h2 _ (by simp)]; exact h1.1
+      intro e i s w hq out ho
+      simp only [block, exec, Except.ok.injEq] at ho; subst ho
+      simp only [Ok_nil_iff, SP]; exact ⟨hq.1, hq.2.1⟩
+  intro e i s w hq
+  refine Holds.seq (quiet_step trk MPre q3 _ hq3 g V1 V1 fuel e i s w keep hq) ?_ hnn
+  intro e i s w hq
+  refine Holds.seq (lockGp_holds trk fuel MPre g V1 e i s w hq) ?_ hnn
+  intro e i s w hq
+  refine Holds.seq (quiet_step trk MPre q4 _ hq4 g V1 V1 fuel e i s w keep hq) ?_ hnn
+  intro e i s w hq
+  refine Holds.seq (lockReg_holds trk fuel MPre g V1 e i s w hq) ?_ hnn
+  intro e i s w hq
+  refine Holds.seq (regEmpty_holds trk fuel MPre g e i s w hq) ?_ (fun ctl e s w hn h => A9_sync ctl e s w hn h)
+  intro e i s w hq
+  obtain ⟨r, hr2, hgo, hcase⟩ := hq
+  -- if (…) goto out
+  refine Holds.seq (Qa := fun ctl e' s' w' => ctl = .normal ∧ s' = s ∧ e'.priv = e.priv ∧
+      e'.vars "_goto_out" = some (.int (if r.truthy then 1 else 0)) ∧ (r.truthy = false → e' = e)) ?_ ?_
+      (fun ctl e s w hn h => absurd h.1 hn)
+  · rw [exec_ifte _ _ _ _ _ _ _ (eval_var e "_t2" r hr2)]
+    by_cases ht : r.truthy = true
+    · simp only [ht, if_true]
+      intro out ho; exec_simp_at ho []; subst ho
+      simp [Ok_nil_iff]
+    · simp only [ht, if_false]
+      intro out ho; simp [exec] at ho; subst ho
+      simp [Ok_nil_iff, ht, hgo]
+  intro e' i s' w' hq
+  obtain ⟨_, rfl, hpriv, hgo', hsame⟩ := hq
+  refine Holds.seq (Qa := A11 MPre) ?_ ?_ ?_
+  · rw [exec_ifte _ _ _ _ _ _ _ (eval_var e' "_goto_out" _ hgo')]
+    by_cases ht : r.truthy = true
+    · simp only [ht, if_true] at hcase ⊢
+      simp [Val.truthy]
+      intro out ho; simp only [exec, Except.ok.injEq] at ho; subst ho
+      obtain ⟨h1, h2, h3, h4, h5, _⟩ := hcase
+      simp only [Ok_nil_iff, A11]
+      exact ⟨g, h1, h2, h3, by rw [hpriv]; exact h4, by rw [hpriv]; exact h5, trivial⟩
+    · simp only [ht, if_false] at hcase ⊢
+      simp [Val.truthy]
+      have he : e' = e := hsame (by simpa using ht)
+      subst he
+      refine (gpBlock_holds trk fuel master wfr MPre hM hW hS g _ e' i s' w' hcase).mono ?_
+      intro ctl e2 s2 w2 h
+      cases ctl with
+      | normal => exact ⟨!g, GInv_PI h⟩
+      | blocked => trivial
+      | fuel => trivial
+      | _ => exact h.elim
+  · intro e2 i2 s2 w2 hq
+    obtain ⟨g', hq⟩ := hq
+    exact tail_holds trk fuel MPre q5 hq5 g' e2 i2 s2 w2 hq
+  · intro ctl e2 s2 w2 hn h
+    cases ctl <;> simp_all [A11, SyncPost]
+
+/-! ## the generated values -/
+
+theorem memb_wfr_spec (trk : Bool) : WfrSpec trk «memb.wait_for_readers» MembPre :=
+  fun fuel hd csv gv g upc env inp ss wins h => memb_wfr_holds trk fuel hd csv gv g upc env inp ss wins h
+theorem mb_wfr_spec (trk : Bool) : WfrSpec trk «mb.wait_for_readers» (fun _ => True) :=
+  fun fuel hd csv gv g upc env inp ss wins h => mb_wfr_holds trk fuel hd csv gv g upc env inp ss wins h
+
+/-- the assumption on the five wait-queue call statements of `synchronize_rcu` -/
+def QueueQuiet (trk : Bool) (MPre : (Loc → Option Val) → Prop) : Prop :=
+  Quiet trk MPre qWaitAdd (some "_t1") ∧ Quiet trk MPre qBusyWait none ∧ Quiet trk MPre qSetState none ∧
+  Quiet trk MPre qMoveWaiters none ∧ Quiet trk MPre qWakeAll none
+
+theorem memb_sync_holds (trk fuel) (hq : QueueQuiet trk MembPre) (g : Bool) (env inp ss wins)
+    (hI : PI MembPre g (fun _ => True) env ss) :
+    Holds trk (exec fuel «memb.synchronize_rcu» env inp) ss wins SyncPost := by
+  rw [memb_sync_eq]
+  exact syncT_holds trk fuel _ _ _ _ _ _ _ MembPre (memb_master_spec trk) (memb_wfr_spec trk) MembPre_stable
+    hq.1 hq.2.1 hq.2.2.1 hq.2.2.2.1 hq.2.2.2.2 g env inp ss wins hI
+
+theorem mb_sync_holds (trk fuel) (hq : QueueQuiet trk (fun _ => True)) (g : Bool) (env inp ss wins)
+    (hI : PI (fun _ => True) g (fun _ => True) env ss) :
+    Holds trk (exec fuel «mb.synchronize_rcu» env inp) ss wins SyncPost := by
+  rw [mb_sync_eq]
+  exact syncT_holds trk fuel _ _ _ _ _ _ _ (fun _ => True) (mb_master_spec trk) (mb_wfr_spec trk) mb_stable
+    hq.1 hq.2.1 hq.2.2.1 hq.2.2.2.1 hq.2.2.2.2 g env inp ss wins hI
+
 end UrcuVerif.Src.Sync
